@@ -225,6 +225,11 @@ def run(ck, facts, tier):
     pywrap.run_curve_wrappers(ck, facts)
     from rules import deps
     deps.include_ad(ck, facts, tier)
+    # "each looked-up value's gradient and Hessian": read per node tag through gradient1 / gradient2 (C17 R17.1/R17.2)
+    from rules import c17
+    nd17, tb17 = list(ck.not_decided), list(ck.trusted)
+    c17.run(ck, facts, tier, only={"gradient1[Dual]", "gradient1[Dual2]", "gradient2[Dual2]"})
+    ck.not_decided[:], ck.trusted[:] = nd17, tb17
     # "the i-th node in date order" presupposes that the stored nodes are in date order on every construction path: the sort is a must-pass-through (C11 R11.4)
     from rules import c11
     if not getattr(ck, "_c11_c12_nested", False):          # C11 includes R12.2 of this module in turn
